@@ -349,3 +349,19 @@ pub fn batchquery(m: &HashMap<String, String>) -> Value {
     let _ = who;
     json!({"reproduced": panicked, "outcomes": outcomes, "inputs": {"next_batch_action_time": next, "present": present}})
 }
+
+/// Replays a string counterexample of the denom validators (engine M, C14) on the real functions.
+pub fn denom(m: &HashMap<String, String>) -> Value {
+    let s = m.get("s").cloned().unwrap_or_default();
+    let which = m.get("fn").cloned().unwrap_or_else(|| "validate_denom".into());
+    let (real, spec) = if which == "validate_ibc_denom" {
+        (staking::helpers::validate_ibc_denom(s.clone()), s.starts_with("ibc/") && s.len() == 68)
+    } else {
+        (staking::helpers::validate_denom(s.clone()), s.len() > 3 && s.bytes().all(|b| b.is_ascii_alphabetic()))
+    };
+    let reproduced = match &real {
+        Ok(r) => !spec || *r != s,
+        Err(_) => spec,
+    };
+    json!({"reproduced": reproduced, "real": format!("{real:?}"), "spec_accepts": spec, "inputs": {"s": s, "fn": which}})
+}
